@@ -296,6 +296,70 @@ def check_kw(case) -> Res:
         r.transitions += r2.transitions
     return r
 
+# ------------------------------------------------------------------ long single tokens
+# one token of length n in every position where the readers convert text to a number or re-read digits: the conversion
+# limits of the host (int() refuses more than 4300 digits, float() overflows) must surface as positioned reader errors
+LONG_TOKENS = {
+    "int": lambda n: "1" * n, "neg_int": lambda n: "-" + "7" * n, "zeros": lambda n: "0" * n, "zeros_then_1": lambda n: "0" * n + "1",
+    "frac": lambda n: "1." + "3" * n, "int_frac": lambda n: "2" * n + ".5", "exp": lambda n: "1e" + "9" * n, "neg_exp": lambda n: "1e-" + "9" * n,
+    "exp_zeros": lambda n: "1e" + "0" * n + "1", "percent": lambda n: "6" * n + "%", "version": lambda n: "1." + "2" * n + ".3",
+    "v_version": lambda n: "v" + "4" * n, "ident_digits": lambda n: "a" + "5" * n, "digits_ident": lambda n: "5" * n + "a", "dashes": lambda n: "2024-" + "0" * n + "-01",
+    "quoted_digits": lambda n: '"' + "8" * n + '"', "dotted": lambda n: ".".join(["1"] * (n // 2 + 1)),
+}
+LONG_CONTEXTS = ["K::{T}\n", "K::[{T}]\n", "K::[a::{T}]\n", "K::[{T}∧REQ→§SELF]\n", "K::CONST[{T}]\n", "K::[x∧RANGE[0,{T}]]\n", "K::[x∧MAX_LENGTH[{T}]]\n",
+                 "§{T}::S\n  X::1\n", "K::A[{T}]\n", "K::w {T} w\n", "===D===\nMETA:\n  TYPE::X\n  VERSION::{T}\n---\nA::1\n===END===\n",
+                 "===D===\nMETA:\n  TYPE::X\n  CONTRACT::[FIELD[F]::REQ∧CONST[{T}]]\n---\nF::{T}\n===END===\n", "{T}::1\n", "K::1\n// {T}\n", "K::{T}→{T}\n"]
+LONG_SIZES = [50, 400, 4299, 4300, 4301, 5000, 20000]
+
+
+def check_long(case) -> Res:
+    tok, ctxt, n, tools = case
+    text = ctxt.replace("{T}", LONG_TOKENS[tok](n))
+    r = read_all(text, [tok, ctxt, n])
+    for v in r.violations:      # keep replay files small: the case regenerates the text
+        v["case"] = dict(long=[tok, ctxt, n])
+    if tools:
+        r2 = check_tools_text(text, None)
+        for v in r2.violations:
+            v["case"] = dict(long=[tok, ctxt, n], tool=v["case"]["tool"], args=v["case"]["args"])
+        r.violations += r2.violations
+        r.transitions += r2.transitions
+    return r
+
+
+# ------------------------------------------------------------------ META fields of every value kind
+# the tools read META.TYPE / VERSION / CONTRACT / GRAMMAR / ... back out of the parsed document and use them as text
+# (schema names, banners, routing keys): every value KIND the reader can produce must be survivable in each of them
+META_KEYS = ["TYPE", "VERSION", "CONTRACT", "GRAMMAR", "ID", "STATUS", "SCHEMA", "COMPRESSION_TIER", "LOSS_PROFILE", "X"]
+META_KIND_VALUES = ["A", '"q s"', "5", "-1.5", "true", "null", "[A,B]", "[]", "[k::v]", "[[a],[b]]", '["^a"∧REQ→§SELF]', "A[x]", "a→b", "60%", "1.2.3",
+                    "", "\n    SUB::1\n    DEEP:\n      L::[1,2]", "\n```\nz\n```", "[FIELD::X]", "[FIELD[F]::REQ∧ENUM[a,b]]", "[GENERATE::[gbnf]]", '"[A,B]"']
+META_BASES = [("TYPE::T", 'VERSION::"1.0"', "CONTRACT::[FIELD[F]::REQ∧ENUM[a,b]]"), ("TYPE::T", "CONTRACT::[FIELD::X]"), ("TYPE::T",), ()]
+
+
+def meta_kind_space():
+    out = []
+    for bi, base in enumerate(META_BASES):
+        for k in META_KEYS:
+            for v in META_KIND_VALUES:
+                out.append((bi, k, v))
+    return out
+
+
+def meta_kind_text(bi, k, v):
+    lines = [ln for ln in META_BASES[bi] if not ln.startswith(k + "::")] + [f"{k}::{v}"]
+    return "===D===\nMETA:\n" + "".join(f"  {ln}\n" for ln in lines) + "---\nF::a\n===END===\n"
+
+
+def check_meta_kind(case) -> Res:
+    text = meta_kind_text(*case)
+    r = read_all(text, list(case))
+    r2 = check_tools_text(text, None)
+    r.violations += r2.violations
+    r.transitions += r2.transitions
+    r.extra_nontrivial = r2.extra_nontrivial
+    return r
+
+
 # ------------------------------------------------------------------ packaged-file mutations
 def packaged_files():
     import octave_mcp
@@ -495,6 +559,9 @@ def run(ctx):
     ctx.coverage["bounds"]["special_words"] = words
     kw = [(w, t, v, (w in KW_TOOL_WORDS) or not ctx.quick) for w in words + [x for x in KW_TOOL_WORDS if x not in words] for t in KW_TEMPLATES for v in KW_VALUES]
     ctx.explore("keywords", kw, check_kw, chunk=20)
+    longs = [(t, c, n, n in (4300, 4301) or not ctx.quick) for t in sorted(LONG_TOKENS) for c in LONG_CONTEXTS for n in LONG_SIZES]
+    ctx.explore("readers.long", longs, check_long, chunk=10)
+    ctx.explore("meta.kinds", meta_kind_space(), check_meta_kind, chunk=5)
     ctx.explore("tools.seq", Sequences(T20, Lt), check_tools_seq, chunk=20)
     from ..pool import DOCS
     ctx.explore("tools.pool", [[k] for k in sorted(DOCS)], check_tools_pool, chunk=1)
@@ -524,6 +591,15 @@ def replay(ctx, rp):
                     if v["case"]["tool"] == case["tool"] and v["case"]["args"] == case["args"]]
         if sub == "unicode.contexts":
             return read_all(case[1].replace("{c}", chr(int(case[0][2:].rstrip("+"), 16))), case).violations
+        if sub == "readers.long":
+            tok, ctxt, n = case["long"]
+            vs = check_long((tok, ctxt, n, "tool" in case)).violations
+            return [v for v in vs if v["case"].get("tool") == case.get("tool") and v["case"].get("args") == case.get("args")]
+        if sub == "meta.kinds":
+            if isinstance(case, dict):
+                return [v for v in check_tools_text(case["text"], None).violations
+                        if v["case"]["tool"] == case["tool"] and v["case"]["args"] == case["args"]]
+            return read_all(meta_kind_text(*case), list(case)).violations
         if sub == "readers.chars":
             return check_chars(case).violations
         if sub == "readers.cuts":
